@@ -765,5 +765,45 @@ Definition leaves (t : tree) : list leaf :=
   map (fun p => (vnorm (vis t), attrs t, p)) (leaf_paths t).
 Definition Leaves (ts : list tree) : list leaf := flat_map leaves ts.
 
+(* ------------------------------------------------------------------ *)
+(* the classes of inputs on which the rewriting is known to change the set of
+   imports (each is refuted in Props.v) *)
+Definition oN_eqb (a b : option N) : bool :=
+  match a, b with
+  | None, None => true
+  | Some x, Some y => N.eqb x y
+  | _, _ => false
+  end.
+(* two trees that unique() identifies (equal paths) in different classes *)
+Definition dup_across (same : tree -> tree -> bool) (l : list tree) : bool :=
+  existsb (fun x => existsb (fun y => tree_eqb x y && negb (same x y)) l) l.
+Definition item_list (ns : list tree) : list tree :=
+  map nest_trailing_self (flat_map (flatten true) ns).
+(* DupAcrossVisibility / DupAcrossAttrs, on the normalized trees *)
+Definition DupAcrossVisibility (ns : list tree) : bool :=
+  dup_across (fun x y => N.eqb (vnorm (vis x)) (vnorm (vis y))) (item_list ns).
+Definition DupAcrossAttrs (ns : list tree) : bool :=
+  dup_across (fun x y => oN_eqb (attrs x) (attrs y)) (item_list ns).
+(* NestedEmptyList: a nested list item whose path normalize emptied (a::{b::{}, c}) *)
+Definition NestedEmptyList (ns : list tree) : bool :=
+  existsb (fun t => negb (no_empty_kid t)) ns.
+
+Section Bad.
+Variable cmp : tree -> tree -> comparison.
+(* AliasClash g = alias_clash for the SharedPrefix of g: during merging two
+   first segments are matched by equal_except_alias although they differ
+   (DupModuloRootAlias, AliasedPrefixOne and DupModuloAliasNested are
+   instances) *)
+Definition BadClass (g : granularity) (ts : list tree) : bool :=
+  let ns := map (normalize cmp) ts in
+  match g with
+  | Preserve => false
+  | Item => NestedEmptyList ns || DupAcrossVisibility ns || DupAcrossAttrs ns
+  | Module => NestedEmptyList ns || alias_clash cmp SPModule ns
+  | GCrate => NestedEmptyList ns || alias_clash cmp SPCrate ns
+  | One => NestedEmptyList ns || alias_clash cmp SPOne ns
+  end.
+End Bad.
+
 (* set equality of lists, as mutual inclusion *)
 Definition SameSet {A : Type} (l1 l2 : list A) : Prop := forall x, In x l1 <-> In x l2.
